@@ -428,7 +428,7 @@ pub fn build(quick: bool) -> Check {
     for d in if quick { 5..=6 } else { 5..=7 } {
         families.push(Box::new(SeqFamily { alpha: stmts.clone(), depth: d, label: "statement-command-sequences" }));
     }
-    families.push(Box::new(super::soak::Soak { label: "text-and-even", lens: super::soak::lens(quick), mixes: vec![super::soak::Mix::Text, super::soak::Mix::Even, super::soak::Mix::Silent], opts: super::soak::opts_all().into_iter().take(2).collect() }));
+    families.push(Box::new(super::soak::Soak { label: "text-and-even", lens: super::soak::lens(quick), mixes: vec![super::soak::Mix::Text, super::soak::Mix::Even, super::soak::Mix::Silent], opts: super::soak::opts_all().into_iter().take(2).collect(), big: vec![] }));
     families.push(Box::new(UseFamily { spellings: use_spellings() }));
     families.push(Box::new(IdPairs));
     families.push(Box::new(Utf8Offsets));
